@@ -82,6 +82,118 @@ M = [
     ('c14-guard-stored', 'C14', 'sismic/clock/clock.py', "if new_time < current_time:", "if new_time < self._time:"),
     ('c14-speed-no-rebase', 'C14', 'sismic/clock/clock.py',
      "        self._time += self._elapsed\n        self._base = time()\n        self._speed = speed", "        self._time += self._elapsed\n        self._speed = speed"),
+    ('c07-exit-order-decl', 'C07', 'sismic/interpreter/default.py',
+     "key=lambda s: (-self._statechart.depth_for(s), s)):\n                # Only leave",
+     "key=lambda s: (-self._statechart.depth_for(s))):\n                # Only leave"),
+    ('c07-hash-order-entry', 'C07', 'sismic/interpreter/default.py',
+     "return MicroStep(entered_states=sorted(self._statechart.children_for(leaf.name)))",
+     "return MicroStep(entered_states=list(set(self._statechart.children_for(leaf.name))))"),
+    ('c08-invariants-skipped-on-empty-step', 'C08', 'sismic/interpreter/default.py',
+     "        for name in configuration:\n            state = self._statechart.state_for(name)\n            self._evaluate_contract_conditions(state, 'invariants', macro_step)",
+     "        for name in (configuration if macro_step else []):\n            state = self._statechart.state_for(name)\n            self._evaluate_contract_conditions(state, 'invariants', macro_step)"),
+    ('c08-post-before-exit-code', 'C08', 'sismic/interpreter/default.py',
+     "            # Remove state from active configuration\n            self._configuration.remove(state.name)\n\n            # Postconditions\n            self._evaluate_contract_conditions(state, 'postconditions', step)",
+     "            # Remove state from active configuration\n            self._configuration.remove(state.name)"),
+    ('c08-wrong-error-class', 'C08', 'sismic/interpreter/default.py',
+     "self._evaluate_contract_conditions(step.transition, 'postconditions', step)\n            self._evaluate_contract_conditions(step.transition, 'invariants', step)\n\n            # Update idle time",
+     "self._evaluate_contract_conditions(step.transition, 'invariants', step)\n            self._evaluate_contract_conditions(step.transition, 'postconditions', step)\n\n            # Update idle time"),
+    ('c08-old-snapshot-after-entry', 'C08', 'sismic/interpreter/default.py',
+     "            # Preconditions\n            self._evaluate_contract_conditions(state, 'preconditions', step)\n\n            # Execute entry action\n            sent_events.extend(self._evaluator.execute_on_entry(state))",
+     "            # Execute entry action\n            sent_events.extend(self._evaluator.execute_on_entry(state))\n\n            # Preconditions\n            self._evaluate_contract_conditions(state, 'preconditions', step)"),
+    ('c08-all-failures-collected', 'C08', 'sismic/interpreter/default.py',
+     "        for condition in unsatisfied_conditions:\n            raise exception_klass(",
+     "        for condition in list(unsatisfied_conditions):\n            raise exception_klass("),
+    ('c09-ignore-only-invariants', 'C09', 'sismic/interpreter/default.py',
+     "        if self._ignore_contract:\n            return\n",
+     "        if self._ignore_contract and cond_type == 'invariants':\n            return\n"),
+    ('c09-evaluate-and-discard', 'C09', 'sismic/interpreter/default.py',
+     "        if self._ignore_contract:\n            return\n\n        exception_klass",
+     "        exception_klass"),
+    ('c10-no-consumed-meta', 'C10', 'sismic/interpreter/default.py',
+     "                self._raise_event(MetaEvent('event consumed', event=event))",
+     "                if not isinstance(event, InternalEvent):\n                    self._raise_event(MetaEvent('event consumed', event=event))"),
+    ('c10-final-check-only-at-step-ended', 'C10', 'sismic/interpreter/listener.py',
+     "        if self._interpreter.final:", "        if self._interpreter.final and event.name == 'step ended':"),
+    ('c10-property-clock-reads-clock', 'C10', 'sismic/clock/clock.py',
+     "        return self._interpreter.time", "        return self._interpreter.clock.time"),
+    ('c10-exited-after-transition', 'C10', 'sismic/interpreter/default.py',
+     "            # Notify properties\n            self._raise_event(MetaEvent('state exited', state=state.name))\n",
+     "            # Notify properties\n            if not step.transition or step.transition.target != state.name:\n                self._raise_event(MetaEvent('state exited', state=state.name))\n"),
+    ('c11-priority-mapping', 'C11', 'sismic/io/datadict.py',
+     "                    elif transition.priority == Transition.HIGH_PRIORITY:\n                        priority = 'high'",
+     "                    elif transition.priority >= Transition.HIGH_PRIORITY:\n                        priority = 'high'"),
+    ('c11-memory-dropped-for-deep', 'C11', 'sismic/io/datadict.py',
+     "        data['type'] = 'deep history'\n        if state.memory:\n            data['memory'] = state.memory",
+     "        data['type'] = 'deep history'"),
+    ('c11-postconditions-of-transitions-lost', 'C11', 'sismic/io/datadict.py',
+     "                    for condition in postconditions:\n                        conditions.append({'after': condition})\n                    for condition in invariants:\n                        conditions.append({'always': condition})\n                    transition_data['contract'] = conditions",
+     "                    for condition in invariants:\n                        conditions.append({'always': condition})\n                    transition_data['contract'] = conditions"),
+    ('c12-no-duplicate-name-check', 'C12', 'sismic/model/statechart.py',
+     "        if state.name in self._states.keys():\n            raise StatechartError('State {} already exists!'.format(state))",
+     "        if state.name in self._states.keys() and parent is None:\n            raise StatechartError('State {} already exists!'.format(state))"),
+    ('c12-schema-error-escapes', 'C12', 'sismic/io/yaml.py',
+     "        except schema.SchemaError as e:\n            raise StatechartError('YAML validation failed') from e",
+     "        except schema.SchemaMissingKeyError as e:\n            raise StatechartError('YAML validation failed') from e"),
+    ('c12-memory-self-allowed', 'C12', 'sismic/model/statechart.py',
+     "                if memory == name:\n                    raise StatechartError(",
+     "                if memory == name and False:\n                    raise StatechartError("),
+    ('c12-target-not-checked', 'C12', 'sismic/model/statechart.py',
+     "        if transition.target is not None and transition.target not in self._states:\n            raise StatechartError('Unknown target state for {}'.format(transition))",
+     "        if transition.target is not None and transition.target not in self._states and transition.event is None:\n            raise StatechartError('Unknown target state for {}'.format(transition))"),
+    ('c15-meta-events-forwarded', 'C15', 'sismic/interpreter/listener.py',
+     "        if event.name == 'event sent':\n            self._callable(Event(event.event.name, **event.event.data))",
+     "        if event.name == 'event sent':\n            self._callable(Event(event.event.name, **event.event.data))\n        elif event.name in ('na', 'nb'):\n            self._callable(Event(event.name, **event.data))"),
+    ('c15-internal-instance-forwarded', 'C15', 'sismic/interpreter/listener.py',
+     "            self._callable(Event(event.event.name, **event.event.data))", "            self._callable(event.event)"),
+    ('c15-delay-dropped', 'C15', 'sismic/interpreter/listener.py',
+     "            self._callable(Event(event.event.name, **event.event.data))",
+     "            self._callable(Event(event.event.name, **{k: v for k, v in event.event.data.items() if k != 'delay'}))"),
+    ('c15-consumed-external-forwarded', 'C15', 'sismic/interpreter/listener.py',
+     "        if event.name == 'event sent':", "        if event.name in ('event sent', 'event consumed'):"),
+    ('c16-remove-forgets-incoming-of-descendants', 'C16', 'sismic/model/statechart.py',
+     "        # Remove children\n        for child in list(self.children_for(state.name)):\n            self.remove_state(child)",
+     "        # Remove children\n        for child in list(self.children_for(state.name)):\n            if self.children_for(child) or True:\n                for t in [t for t in self.transitions if t.source == child]:\n                    self.remove_transition(t)\n                self._states.pop(child); self._children[self._parent.pop(child)].remove(child); self._children.pop(child)"),
+    ('c16-rename-keeps-stale-memory', 'C16', 'sismic/model/statechart.py',
+     "            if isinstance(other_state, HistoryStateMixin):\n                if other_state.memory == old_name:\n                    other_state.memory = new_name\n\n            # Adapt parent",
+     "            # Adapt parent"),
+    ('c16-move-keeps-initial', 'C16', 'sismic/model/statechart.py',
+     "                if other_state.initial == name:\n                    other_state.initial = None\n\n            # Change memory (HistoryState)\n            if isinstance(other_state, HistoryStateMixin):\n                if other_state.memory == name:\n                    other_state.memory = None",
+     "                if other_state.initial == name and False:\n                    other_state.initial = None\n\n            # Change memory (HistoryState)\n            if isinstance(other_state, HistoryStateMixin):\n                if other_state.memory == name:\n                    other_state.memory = None"),
+    ('c17-rename-misses-initial', 'C17', 'sismic/model/statechart.py',
+     "                if other_state.initial == old_name:\n                    other_state.initial = new_name",
+     "                if other_state.initial == old_name and other_state.name < old_name:\n                    other_state.initial = new_name"),
+    ('c17-internal-becomes-loop', 'C17', 'sismic/model/statechart.py',
+     "            if transition.source == old_name:\n                transition._source = new_name",
+     "            if transition.source == old_name:\n                if transition.internal:\n                    transition._target = new_name\n                transition._source = new_name"),
+    ('c18-memory-keyed-by-id', 'C18', 'sismic/code/python.py',
+     "        return ('state', obj.name)", "        return ('state', id(obj))"),
+    ('c18-event-loses-data', 'C18', 'sismic/model/events.py',
+     "        self.name, self.data = state", "        self.name, self.data = state[0], {k: v for k, v in state[1].items() if k != 'delay'}"),
+    ('c18-idle-time-not-copied', 'C18', 'sismic/interpreter/default.py',
+     "    def __repr__(self):\n        return '{}({!r})'.format(self.__class__.__name__, self._statechart)",
+     "    def __getstate__(self):\n        d = self.__dict__.copy()\n        d['_memory'] = {}\n        return d\n\n    def __repr__(self):\n        return '{}({!r})'.format(self.__class__.__name__, self._statechart)"),
+    ('c19-entered-inspects-whole-trace', 'C19', 'sismic/bdd/steps.py',
+     "    test = testing.state_is_entered(context.monitored_trace, name)\n    assert test, 'State {} is not entered'.format(name)",
+     "    test = testing.state_is_entered(context.trace, name)\n    assert test, 'State {} is not entered'.format(name)"),
+    ('c19-not-fired-always-passes', 'C19', 'sismic/bdd/steps.py',
+     "    test = not testing.event_is_fired(context.monitored_trace, name)\n    assert test, 'Event {} is fired'.format(name)",
+     "    test = not testing.event_is_fired(context.monitored_trace, name, {'name': None})\n    assert test, 'Event {} is fired'.format(name)"),
+    ('c19-variable-equals-loose', 'C19', 'sismic/bdd/steps.py',
+     "    assert current_value != expected_value, 'Variable {} equals {}'.format(variable, current_value)",
+     "    assert current_value is not expected_value, 'Variable {} equals {}'.format(variable, current_value)"),
+    ('c19-monitoring-not-reset', 'C19', 'sismic/bdd/environment.py',
+     "        # Stop monitoring\n        context._monitoring = False\n", "        # Stop monitoring\n        pass\n"),
+    ('c20-second-execute-dropped', 'C20', 'sismic/runner/runner.py',
+     "            steps.append(step)\n\n            if not self._execute_all:\n                break\n\n            step = self.interpreter.execute_once()",
+     "            steps.append(step)\n            step = self.interpreter.execute_once()\n\n            if not self._execute_all:\n                break"),
+    ('c20-after-run-before-stop-flag', 'C20', 'sismic/runner/runner.py',
+     "        self.before_run()\n        self._unpaused.wait()", "        self._unpaused.wait()\n        self.before_run()\n        self.before_run() if self._stop.is_set() else None"),
+    ('c20-final-not-checked', 'C20', 'sismic/runner/runner.py',
+     "        while not self.interpreter.final and not self._stop.is_set():", "        while not self._stop.is_set():"),
+    ('c20-pause-clears-stop', 'C20', 'sismic/runner/runner.py',
+     "        self._stop.set()\n        self._unpaused.set()\n        self.wait()", "        self._unpaused.set()\n        self._stop.set()\n        self.wait()"),
+    ('c20-no-wait-when-paused', 'C20', 'sismic/runner/runner.py',
+     "            time.sleep(max(0, self.interval - elapsed))\n            self._unpaused.wait()", "            time.sleep(max(0, self.interval - elapsed))\n            if self.interval > 0:\n                self._unpaused.wait()"),
 ]
 
 
